@@ -1,4 +1,4 @@
 """Property id -> module with check(pid, tier, seed) -> core.Run, replay(pid, path), RULE."""
-from . import c05, c10, c15, c16, c17
+from . import c05, c10, c15, c16, c17, c20
 
-REGISTRY = {"C05": c05, "C10": c10, "C15": c15, "C16": c16, "C17": c17}
+REGISTRY = {"C05": c05, "C10": c10, "C15": c15, "C16": c16, "C17": c17, "C20": c20}
